@@ -5,9 +5,11 @@ argument of that name by keyword (then every function keeps that parameter name)
 import ast, glob, os, shutil, sys
 
 
-def kw_names():
+def kw_names(root="/repo"):
     names = set()
-    for pat in ("/repo/labella/*.py", "/repo/tests/*.py", "/repo/examples/*.py", "/repo/docs/*.py"):
+    if not os.path.isdir(os.path.join(root, "tests")):
+        root = "/repo"
+    for pat in (root + "/labella/*.py", root + "/tests/*.py", root + "/examples/*.py", root + "/docs/*.py"):
         for p in glob.glob(pat):
             try:
                 t = ast.parse(open(p).read())
